@@ -36,11 +36,14 @@ def _item(o):
 async def _collect(parser, chunk, header_length):
     out = []
     agen = parser.receive_data(chunk, header_length) if header_length is not None else parser.receive_data(chunk)
-    async for fr in agen:
-        out.append(_item(fr))
-        if len(out) > LIMIT:
-            await agen.aclose()
-            return out, True
+    try:
+        async for fr in agen:
+            out.append(_item(fr))
+            if len(out) > LIMIT:
+                await agen.aclose()
+                return out, True
+    except Exception as e:      # the parser let an exception escape instead of yielding an invalid marker
+        out.append(('raised', type(e).__name__))
     return out, False
 
 
@@ -89,6 +92,8 @@ async def _run_msg(st, data):
 
 
 def _coq_item(it):
+    if it[0] in ('raised', 'broken'):
+        return 'IUnmodelled'          # nothing in the model yields this: the comparison fails
     return 'IInvalid' if it[0] == 'invalid' else '(IFrame %s)' % FR.coq_frame(it[1])
 
 
@@ -176,6 +181,11 @@ async def _gather(ctx, corr):
                                                      ([i for i in got if i[0] == 'broken'][:1],),
                                              'stream': stream.hex(), 'chunks': [c.hex() for c in part]})
                 continue
+            if any(i[0] == 'raised' for i in got):
+                corr.oracle_failures.append({'what': 'the parser let %s escape instead of marking the frame invalid' %
+                                                     ([i for i in got if i[0] == 'raised'][0][1],),
+                                             'stream': stream.hex(), 'chunks': [c.hex() for c in part]})
+                continue
             if (got, res) != (ref, ref_res):
                 corr.oracle_failures.append({'what': 'chunking changes the decoded frames or the residual buffer',
                                              'stream': stream.hex(), 'chunks': [c.hex() for c in part]})
@@ -188,7 +198,7 @@ async def _gather(ctx, corr):
                                 'impl_items': got, 'impl_residual': res.hex() if res is not None else None}))
         # exactness oracle: items == concatenation of the per-body results
         exp = []
-        if any(i[0] == 'broken' for i in ref):
+        if any(i[0] in ('broken', 'raised') for i in ref):
             continue
         for _, b in bodies:
             r = FR._parse(b)
@@ -251,6 +261,10 @@ def correspond(ctx, corr, model_ok):
                  'with empty and non-empty messages under an iteration budget. non-trivial = more than one chunk or a '
                  'message; distinct by (stream, chunk lengths)')
     items = asyncio.run(_gather(ctx, corr))
+    mf, n = messaging_oracle(ctx)
+    corr.oracle_failures.extend(mf)
+    corr.evaluations += n
+    corr.count('AbstractMessagingTransport arrival/consumption schedules with a transport failure', n)
     if not model_ok:
         return
     live = [x for x in items if x[0] is not None]
@@ -270,11 +284,17 @@ def search(ctx, budget_s):
         asyncio.run(_gather(ctx, c))
         if c.oracle_failures:
             return c.oracle_failures[:1]
+        mf, _ = messaging_oracle(ctx)
+        if mf:
+            return mf[:1]
     return []
 
 
 def replay(obj):
     case = obj['case']
+    if 'messaging_case' in case:
+        from harness import common
+        return bool(messaging_oracle(common.Ctx('C04', 'quick', 0))[0])
 
     async def go():
         if 'message' in case:
@@ -311,3 +331,93 @@ def replay(obj):
     if o:
         print('oracle:', o)
     return bool(o)
+
+
+# ---------------------------------------------------------------------------------------------
+# message transports: AbstractMessagingTransport hands every received frame to the receiver, in order, whatever the
+# interleaving of arrival and consumption, and reports a transport failure only after what arrived before it
+
+def run_messaging(messages, fail_after, consume_every):
+    """messages: list of bytes (each one transport message); the transport failure arrives after `fail_after` messages
+    (None: never); the receiver consumes after every `consume_every` arrivals (0: only at the end).
+    Returns the frames handed out, in order, and whether the failure was reported."""
+    import asyncio as _a
+    from harness import sim
+    from rsocket.transports.abstract_messaging import AbstractMessagingTransport
+    from rsocket.exceptions import RSocketTransportError
+    from rsocket.frame import InvalidFrame
+    loop = sim.new_loop()
+
+    class T(AbstractMessagingTransport):
+        async def send_frame(self, frame):
+            pass
+
+        async def close(self):
+            pass
+    box = {'out': [], 'failed': False}
+    try:
+        t = loop.run(lambda: T())
+
+        async def arrive(msg):
+            async for frame in t._frame_parser.receive_data(msg, 0):      # what every message transport's reader does
+                t._incoming_frame_queue.put_nowait(frame)
+
+        async def consume_all():
+            while not t._incoming_frame_queue.empty() and not box['failed']:
+                try:
+                    gen = await t.next_frame_generator()
+                except RSocketTransportError:
+                    box['failed'] = True
+                    return
+                async for fr in gen:
+                    box['out'].append(('invalid',) if isinstance(fr, InvalidFrame) else ('frame', FR.describe(fr)))
+        n = 0
+        for i, m in enumerate(messages):
+            if fail_after is not None and i == fail_after:
+                t._incoming_frame_queue.put_nowait(RSocketTransportError())
+            loop.run_until_complete(arrive(m))
+            n += 1
+            if consume_every and n % consume_every == 0:
+                loop.run_until_complete(consume_all())
+        if fail_after is not None and fail_after >= len(messages):
+            t._incoming_frame_queue.put_nowait(RSocketTransportError())
+        loop.run_until_complete(consume_all())
+        return box['out'], box['failed']
+    finally:
+        loop.finish()
+
+
+def messaging_oracle(ctx):
+    rng = ctx.rng
+    out = []
+    n_cases = 0
+    for _ in range(ctx.scale(40, 400)):
+        k = rng.randint(1, 6)
+        msgs = []
+        exp_all = []
+        for _ in range(k):
+            x = rng.random()
+            if x < 0.7:
+                env = FR.Env()
+                fr = FR.gen_frame(rng, env, big=False)
+                b = FR.build(fr).serialize()
+            elif x < 0.85:
+                b = bytes(rng.randrange(256) for _ in range(rng.choice([1, 3, 5, 7, 12])))
+            else:
+                b = b''
+            msgs.append(b)
+            one = FR._parse(b) if b else None
+            exp_all.append([] if not b else ([('frame', one[1])] if one[0] == 'ok' else [('invalid',)] if one[0] == 'invalid' else []))
+        fail_after = rng.choice([None, None] + list(range(0, k + 1)))
+        want = [x for e in exp_all[:(fail_after if fail_after is not None else k)] for x in e]
+        for ce in (0, 1, 2, 3):
+            n_cases += 1
+            got, failed = run_messaging(msgs, fail_after, ce)
+            if [g[0] for g in got] != [w[0] for w in want] or \
+                    [FR.norm(g[1]) for g in got if g[0] == 'frame'] != [FR.norm(w[1]) for w in want if w[0] == 'frame'] or \
+                    failed != (fail_after is not None):
+                out.append({'what': 'message transport lost, duplicated or reordered frames around a transport failure',
+                            'messaging_case': {'messages': [m.hex() for m in msgs], 'fail_after': fail_after, 'consume_every': ce},
+                            'expected': len(want), 'got': len(got), 'failure_reported': failed})
+                break
+    return out, n_cases
